@@ -534,7 +534,7 @@ func init() {
 		Level: "exploration",
 		Rule: "metamorphic monitor (parsed vs dump->load): for each accepted program Dump must succeed, an independent decoder must recover exactly the program's parts and an independent encoder must reproduce the bytes; LoadProg through 6 reader behaviours (whole, 1 byte per read, halves, random chunks, zero-byte reads, data with EOF) and every 2-partition of small dumps must give a program with identical disassembly, output, blocks, binding, warnings and runtime error text; re-dump must be byte-identical. " +
 			"Workload: size-directed programs (string constants, identifiers and program names of 0..67825 bytes across every varint class and the 4096-byte buffers, code and source offsets beyond 67823, 2400+ constants), float constants of random bit patterns, and generated programs of all profiles. " +
-			"distinct = hash of dump; non-trivial = program accepted and dumped",
+			"distinct = hash of dump; non-trivial = program accepted and dumped Also: string sizes 3..131 each with every 2-partition; LoadProg is always given another name than Parse (the dumped name must win); Prog.Load into a Prog that was disassembled, executed and traced before (results, re-dump, trace text and the text of an error kept from before the reload must be unaffected); sources with 65538 / 70000 lines and beyond 16 MiB; Dump into a pipe and /dev/null.",
 		Assumptions:   []string{"Execute of the parsed program is the reference for the loaded one", "in the thorough tier the same workload also runs under the race detector build"},
 		MinNontrivial: 300,
 		RaceAlso:      func(tier string) bool { return tier == "thorough" },
@@ -743,7 +743,7 @@ func init() {
 		Level: "fault_enumeration",
 		Rule: "crash monitor over every interruption point: for each dump, LoadProg of every proper prefix (cut 0..len-1; for dumps > 4000 bytes: first/last 600 bytes, 4096-byte buffer edges and a sample), through a whole-slice reader and a one-byte reader, must return a non-nil error and must not panic; prefixes are also produced the way a crash does (Dump into a writer that fails after k bytes). " +
 			"Plus all 65536 magic values and all 65536 (major, minor) pairs in front of a valid body: accepted iff magic = FC 6C, major = 1, minor <= 1. " +
-			"distinct = hash(dump, cut); non-trivial = the cut lies inside a dump that loads when complete",
+			"distinct = hash(dump, cut); non-trivial = the cut lies inside a dump that loads when complete Load modes: whole slice, one byte per read, whole with disassembly and statistics on, and a bytes.Reader from which a preamble was consumed. Also dumps with more than 65536 line feeds / code bytes and with 5-byte offsets (source beyond 16 MiB).",
 		Assumptions:   []string{"the complete dump loads (checked first; C09 covers it)"},
 		MinNontrivial: 1000,
 		Run: func(c *core.Ctx) {
